@@ -84,3 +84,75 @@ Theorem getEdgesForPt_spec :
     gen_getEdgesForPt x y b l r t =
     (if x =? l then 1 else if x =? r then 4 else 0) + (if y =? t then 2 else if y =? b then 8 else 0).
 Proof. intros. unfold gen_getEdgesForPt. zc; lia. Qed.
+
+(* ------------------------------------------------------------------ getNextLocation *)
+(* The five decisions of (r *RectClip64) getNextLocation, cut out of the source on every run:
+   gen_stay_L   — the condition under which the scan stays in the outside state L,
+   gen_next_L   — the state chosen for the first point that left L,
+   gen_next_Inside — the state chosen for a point met in state Inside (5 = the point is kept).
+   Arguments: pt_X pt_Y rec_bottom rec_left rec_right rec_top. *)
+
+(* a point stays in the outside state L exactly while it lies in the closed half-plane of side L *)
+Theorem stay_spec : forall x y b l r t,
+  (gen_stay_Left x y b l r t = true <-> x <= l) /\ (gen_stay_Top x y b l r t = true <-> y <= t) /\
+  (gen_stay_Right x y b l r t = true <-> x >= r) /\ (gen_stay_Bottom x y b l r t = true <-> y >= b).
+Proof.
+  intros. unfold gen_stay_Left, gen_stay_Top, gen_stay_Right, gen_stay_Bottom.
+  zc; repeat split; intros; try discriminate; try reflexivity; try lia.
+Qed.
+
+(* OPPOSITE SIDE FIRST: a point that left L and lies in the closed half-plane of the side opposite to L
+   is given that side, whatever its other coordinate (corner zones included) — executeInternal asks
+   isClockwise only for opposite sides; an adjacent side would make it assume the shorter way round *)
+Theorem next_opposite_first : forall x y b l r t,
+  (x >= r -> gen_next_Left x y b l r t = LRight) /\ (y >= b -> gen_next_Top x y b l r t = LBottom) /\
+  (x <= l -> gen_next_Right x y b l r t = LLeft) /\ (y <= t -> gen_next_Bottom x y b l r t = LTop).
+Proof.
+  intros. unfold gen_next_Left, gen_next_Top, gen_next_Right, gen_next_Bottom, LLeft, LTop, LRight, LBottom.
+  zc; repeat split; intros; try reflexivity; try lia.
+Qed.
+
+(* otherwise: the adjacent side whose closed half-plane contains the point (for a non-empty rectangle at
+   most one does once the opposite side is excluded ... the x-sides before the y-sides or vice versa does
+   not matter), and Inside exactly when the point is strictly inside *)
+Theorem next_adjacent_or_inside : forall x y b l r t, l < r -> t < b ->
+  (x > l -> x < r ->
+     (gen_next_Left x y b l r t = LTop <-> y <= t) /\ (gen_next_Left x y b l r t = LBottom <-> y >= b) /\
+     (gen_next_Left x y b l r t = LInside <-> t < y < b)) /\
+  (x < r -> x > l ->
+     (gen_next_Right x y b l r t = LTop <-> y <= t) /\ (gen_next_Right x y b l r t = LBottom <-> y >= b) /\
+     (gen_next_Right x y b l r t = LInside <-> t < y < b)) /\
+  (y > t -> y < b ->
+     (gen_next_Top x y b l r t = LLeft <-> x <= l) /\ (gen_next_Top x y b l r t = LRight <-> x >= r) /\
+     (gen_next_Top x y b l r t = LInside <-> l < x < r)) /\
+  (y < b -> y > t ->
+     (gen_next_Bottom x y b l r t = LLeft <-> x <= l) /\ (gen_next_Bottom x y b l r t = LRight <-> x >= r) /\
+     (gen_next_Bottom x y b l r t = LInside <-> l < x < r)).
+Proof.
+  intros x y b l r t Hlr Htb.
+  unfold gen_next_Left, gen_next_Top, gen_next_Right, gen_next_Bottom, LLeft, LTop, LRight, LBottom, LInside.
+  zc; repeat split; intros; try reflexivity; try discriminate; try lia.
+Qed.
+
+(* the state chosen never is the state that was left, and it is a location *)
+Theorem next_is_another_location : forall x y b l r t,
+  (x > l -> gen_next_Left x y b l r t <> LLeft) /\ (y > t -> gen_next_Top x y b l r t <> LTop) /\
+  (x < r -> gen_next_Right x y b l r t <> LRight) /\ (y < b -> gen_next_Bottom x y b l r t <> LBottom) /\
+  0 <= gen_next_Left x y b l r t <= 4 /\ 0 <= gen_next_Top x y b l r t <= 4 /\
+  0 <= gen_next_Right x y b l r t <= 4 /\ 0 <= gen_next_Bottom x y b l r t <= 4.
+Proof.
+  intros. unfold gen_next_Left, gen_next_Top, gen_next_Right, gen_next_Bottom, LLeft, LTop, LRight, LBottom.
+  zc; repeat split; intros; try discriminate; try lia.
+Qed.
+
+(* from Inside: a point of the closed rectangle is kept (5); a point outside goes to a side whose OPEN
+   half-plane contains it, the x-sides first *)
+Theorem next_Inside_spec : forall x y b l r t, l <= r -> t <= b ->
+  (gen_next_Inside x y b l r t = 5 <-> (l <= x <= r /\ t <= y <= b)) /\
+  (gen_next_Inside x y b l r t = LLeft <-> x < l) /\ (gen_next_Inside x y b l r t = LRight <-> x > r) /\
+  (gen_next_Inside x y b l r t = LBottom <-> (l <= x <= r /\ y > b)) /\
+  (gen_next_Inside x y b l r t = LTop <-> (l <= x <= r /\ y < t)).
+Proof.
+  intros x y b l r t Hlr Htb. unfold gen_next_Inside, LLeft, LTop, LRight, LBottom.
+  zc; repeat split; intros; try reflexivity; try discriminate; try lia.
+Qed.
